@@ -13,7 +13,7 @@ import (
 )
 
 // Version is bumped whenever generation changes; case lists record it.
-const Version = "g10"
+const Version = "g11"
 
 // Region of a case (chosen by index so that budgets per region are fixed).
 type Region int
@@ -63,6 +63,8 @@ var Exemplars = []string{
 	`^abc`, `^(\w+)-(\d+)$`, `^\d+$`, `a|b`, `[a-z]*`, `(a|b|c)+`, `([a-z])+[0-9]`, `(\w{2,8})+`,
 	`\w+`, `[a-z]+`, `\d+`, `[\w]+`,
 	`[a-zA-Z]+[0-9]+`, `\d+\s+\w+`, `[a-z]+[a-z]+[0-9]`,
+	`.+a.{4}`, `.+foo\d`, `[0-5]+\.[a-z]`, `[1-9][0-9]*x`, `(?i)^k\d+`, `^(?i:s)[a-z]+`, `aaa|foobar|bbb|ccc|ddd|eee|fff|ggg|foo`, `(?m)^(?:foo|bar|baz)`,
+	`\d+.aa`, `[a-z]+.aba`, `(?s).*foo`, `(\w\w?)`, `[0-9][a-z.]+\.txt`, `(a)|(b)`, `(\d+)(?:\.(\d+))?`, `^|,`, `(?P<bob>a+)(?P<bob>b+)`, `(get|getter)s?`,
 	`[ax]+[by]+[ax]+[cz]+`, `[a-c]+[0-9]+[a-c]+x+`, `\w+[0-9]+\w+-+`, `[ab]+[bc]+[ab]+[cd]+`, `[a-c]+[b-d]+[c-e]+`,
 	`^(\d+|UUID|hex32)`, `^(foo|bar)`,
 	`foo|bar|baz`, `(?i)hello`,
@@ -523,6 +525,14 @@ func sortStrings(a []string) {
 
 var sizeLadder = []int{0, 1, 2, 3, 5, 8, 15, 16, 17, 31, 32, 33, 63, 64, 65, 99, 100, 101, 127, 128, 129, 200}
 
+func bytesRepeat(b []byte, n int) []byte {
+	var out []byte
+	for i := 0; i < n; i++ {
+		out = append(out, b...)
+	}
+	return out
+}
+
 func noise(r *rand.Rand, alpha [][]byte, n int) []byte {
 	var b []byte
 	for len(b) < n {
@@ -540,6 +550,23 @@ func Haystacks(r *rand.Rand, re *syntax.Regexp, region Region, k int) [][]byte {
 		switch m := r.IntN(20); {
 		case m < 2: // pure noise of ladder size
 			h = noise(r, alpha, pick(r, sizeLadder))
+		case m == 8: // overlap: a sample whose first/last bytes are repeated around it (overlapping
+			// occurrences of a suffix/prefix literal, e.g. "1aaa" for \d+.aa) or that lacks its first byte at offset 0
+			s := Sample(r, re, region)
+			if len(s) > 0 {
+				switch r.IntN(4) {
+				case 0:
+					h = append(append(h, s...), bytesRepeat(s[len(s)-1:], 1+r.IntN(2))...)
+				case 1:
+					h = append(append(h, bytesRepeat(s[:1], 1+r.IntN(2))...), s...)
+				case 2:
+					h = append(h, s[1:]...) // the literal part at offset 0 without what has to precede it
+					h = append(h, noise(r, alpha, r.IntN(3))...)
+				default:
+					k := 1 + r.IntN(min(3, len(s)))
+					h = append(append(h, s...), s[len(s)-k:]...)
+				}
+			}
 		case m < 9: // sample embedded in noise
 			h = append(h, noise(r, alpha, pick(r, []int{0, 0, 1, 2, 3, 7, 16, 31, 40, 100}))...)
 			h = append(h, Sample(r, re, region)...)
